@@ -1,4 +1,4 @@
-ENTRY = {'modules': ['VirtioVerif.Props.C02', 'VirtioVerif.Props.C02Skeleton'],
+ENTRY = {'modules': ['VirtioVerif.Props.C02', 'VirtioVerif.Props.C02Skeleton', 'VirtioVerif.Props.C02Inv'],
  'assumptions': ['caller contract of the unsafe fns (buffers stay valid and untouched until popped; pop_used '
                  "gets the same buffers as add) — the harness's structured stream honours it, the malformed "
                  "stream deliberately does not and is compared with the model's explicit panic outcomes",
@@ -15,4 +15,7 @@ ENTRY = {'modules': ['VirtioVerif.Props.C02', 'VirtioVerif.Props.C02Skeleton'],
                 "sequence is compared with the model's through the store hook, and at every single store the "
                 'reference device re-validates on the real memory that everything below the readable index '
                 'is complete and in-flight chains are intact. Partial: real hardware memory ordering is not '
-                'modelled.'}
+                'modelled. prefix_safe: in any reachable state, after ANY prefix of the device-visible '
+                'stores of an accepted submission the available index still has its old value unless the '
+                'prefix is complete, no descriptor of an already outstanding chain has changed, and no ring '
+                'slot other than the designated one has changed.'}
